@@ -90,6 +90,68 @@ CLAIMED = {
         note=BASE_NOTE + "Trusted: SQLite's journal makes commit one atomic step and crash = rollback (exercised by the kills, not proved); the OS removes exactly the named file; open (remove old + connect) is one step in the model.",
         technique='Lean 4 proof over all crash points of a transactional store model + read-back correspondence + fault enumeration (process kills, strace injection) + hostile file names',
         design_ref='DESIGN.md 5/C20, 12'),
+    'C06': dict(
+        category='proof',
+        text=("The entry expressions of the quaternion key matrix F and rotation U are translated from the current source on every run; the glue (Kabsch sequence, guards, dispatch) is pinned as "
+              "text (Pins/D.lean) and followed by Model/Superpose.lean; svd/eigh are contract parameters. Theorems (Props/C06.lean, 18, over any linearly ordered field unless marked R): under the SVD "
+              "contract the Kabsch result is a proper rotation and maximises tr(R.A) over SO(3) with no rank assumption - planar, linear, single-point, identical and mirror-image sets included "
+              "(kabsch_proper, kabsch_optimal); the residual identity and RMSD minimality over a point list (residual_expand, rmsd_minimal, rmsd_minimal_sqrt); a unit quaternion gives a proper rotation "
+              "and tr(U.R) = q^T F q (quat_proper, quat_objective - any sign error in the 25 translated entries breaks it); under the eigenpair contract the quaternion result is optimal among unit "
+              "quaternions, every proper rotation IS a unit quaternion's rotation (quat_surjective, R), hence optimal over SO(3) and both methods attain the same minimum (quat_optimal, methods_agree); "
+              "certificate_sound; unequal sizes / uncentred input rejected iff the property says so (rejected_iff, rejected_iff_quaternion). Correspondence: NumPy's own factors handed to the model as exact "
+              "rationals must reproduce the returned matrix; contracts of svd/eigh checked per case; exact-arithmetic certificate of properness and optimality in the Spec driver and an independent Horn optimum; "
+              "families: generic, coplanar, collinear, single point, identical, mirror images, rank-deficient n=2,3, near-equal singular values, scales 0.01-1000."),
+        note=BASE_NOTE + "Contracts of np.linalg.svd / eigh are hypotheses of the theorems, checked on every sampled case; float evaluation compared within 1e-9.",
+        technique='Lean 4 proof of optimality over SO(3) for both kernels (translated entries, pinned glue) + exact-arithmetic certificate checking of real outputs',
+        design_ref='DESIGN.md 5/C06, 12'),
+    'C10': dict(
+        category='proof',
+        text=("Rodrigues, the three Euler matrices and their product are translated entry by entry from the current source on every run; rotate/translation/selection glue is pinned and followed by "
+              "Model/Transform.lean. Theorems (Props/C10.lean): the Rodrigues matrix is a proper rotation fixing its axis and turning every perpendicular vector right-handedly by the angle "
+              "(rodrigues_so3, rodrigues_fixes_axis, rodrigues_right_handed, *_real with Real.cos/sin); the Euler matrix is Rz.Ry.Rx of axis rotations (euler_is_zyx, euler_so3); rotation about a centre is an "
+              "orientation-preserving isometry, inverse restores, the centroid is fixed so the default-centre inverse restores too, translations invert, finite compositions are rigid (rotate_isometry, "
+              "rotate_preserves_orientation, rotate_inverse, centroid_fixed, rotate_inverse_default, translate_inverse, composition_rigid); random axes are unit, angles in [0,2pi) (random_axis_unit, "
+              "random_angle_range); at database level the modelled code equals the Spec: each selected row gets the isometry applied to ITS OWN coordinates, every other row and attribute, the row count and order "
+              "are unchanged, for single transforms and sequences (transform_eq_spec, moves_exactly_selection, sequence_frame, sequence_eq_spec). Correspondence: real databases through translation/rot_axis/"
+              "rot_euler/rot_mat with all selection kinds incl. unsorted/reversed/concatenated rowID lists, angles in [-4pi,4pi], compositions, inverse, seeds."),
+        note=BASE_NOTE + "np.cos/np.sin values are handed to the model as observed doubles; c^2+s^2=1 holds to 1e-16 only (float gap); NumPy RNG reproducibility is checked by running twice.",
+        technique='Lean 4 algebraic proofs over the translated matrices + list-of-rows refinement for selections + differential correspondence on real databases',
+        design_ref='DESIGN.md 5/C10, 12'),
+    'C18': dict(
+        category='proof',
+        text=("The per-axis rotation steps of _align_along_axis, get_rotation_angle and pca are pinned from the current source (Gen.align_steps etc.) and followed by Model/Align.lean. Theorems (Props/C18.lean): "
+              "for x, y and z the composed rotation read from the source's steps maps a vector with spherical angles (phi, theta) onto its length times the requested axis (align_maps_vector, align_maps_vector_axis, "
+              "align_maps_vector_real with Real.cos/sin and pi identities; the spherical contract is derived from Complex.arg / Real.arccos: spherical_contract_holds); the covariance is equivariant and the extreme "
+              "eigenvector with a strict gap ends up parallel to the axis / normal to the plane (cov_equivariant, principal_axis_aligned, principal_axis_aligned_min); the whole structure undergoes one rigid rotation "
+              "about its centroid and only coordinates change (single_rigid_rotation_about_centroid, only_xyz_changes, align_mats_rotations). Correspondence: point clouds with eigenvalue-gap ratio >= 1.05 on a spherical "
+              "grid of orientations x {x,y,z}/{xy,xz,yz} x selections x export on/off; principal directions recomputed with eigh; parallelism within 1e-6; one file iff export."),
+        note=BASE_NOTE + "eigh/arctan2/arccos are contracts; export effects sampled.",
+        technique='Lean 4 trigonometric/algebraic proof over the pinned rotation steps + differential correspondence on oriented point clouds',
+        design_ref='DESIGN.md 5/C18, 12'),
+    'C08': dict(
+        category='proof',
+        text=("Model/Fnat.lean follows both Fnat routes and compute_clashes on top of the contact model (Model/Contacts.lean); cutoffs and options come from the translated constants. Theorems (Props/C08.lean): "
+              "both routes equal the definition - preserved reference residue contacts over reference contacts, a contact whose residue is absent (or has no heavy atom) counting as not preserved - for every cutoff, "
+              "with ZeroDivisionError exactly when there is no reference contact (fnat_fast_eq_def, fnat_sql_eq_def, fast_eq_sql_fnat, absent_residue_not_preserved), under explicit decidable side conditions the "
+              "proofs forced (two chains, consistent residue names, raw columns agree with the parsed table); the value lies in [0,1] and is 1 for decoy = reference (fnat_in_unit_interval, fnat_self_one); the clash count "
+              "equals the number of inter-chain heavy-atom pairs closer than 3 A when no pair is at exactly 3 A (clashes_eq_def_partial) and differs on a concrete pair at exactly 3 A "
+              "(clashes_boundary_counterexample = known finding C08-F2, printed as KNOWN-FINDING). Correspondence: generated complexes with hydrogens, missing residues on either side, hydrogen-only residues, "
+              "blank names, chain IDs other than A/B, cutoffs 3-8, exact at-cutoff lattice distances."),
+        note=BASE_NOTE + "Float distance = exact distance away from the cutoff band (generated >= 1e-6 off, or exactly on it).",
+        technique='Lean 4 proof model = definition for both routes + differential correspondence; known finding C08-F2',
+        design_ref='DESIGN.md 5/C08, 12'),
+    'C13': dict(
+        category='proof',
+        text=("Model/SuperposeDb.lean follows superpose(): selections, identity comparison, positional pairing or the text-level intersection (export, re-parse, join), superpose_selection applied to all mobile rows, "
+              "write-back, optional export; the kernel's rotation is a parameter. Theorems (Props/C13.lean): every new mobile coordinate is R.old + t for one (R,t) (one_rigid_motion); row count, order, all non-coordinate "
+              "attributes of the mobile and the whole target are unchanged (only_mobile_xyz_changes); the pairs handed to the kernel are exactly the selected atoms the two structures share, matched by identity, on both "
+              "routes (matched_pairs_are_shared_atoms, matched_pairs_are_shared_atoms_text); with an optimal kernel the RMSD over them is minimal over all rigid motions (optimal_on_matched, optimal_on_shared - the kernel "
+              "hypothesis is what C06 proves); a rigidly displaced copy lands back (displaced_copy_lands_back, rank >= 2); no file unless export (no_file_unless_export); name + only_backbone rejected. Correspondence: "
+              "targets x mobiles by jitter, displacement, deletions on either side (equal and unequal sizes, same size but different atoms) x selections x methods x export; rigidity fitted on 4 atoms and verified on all; "
+              "matched RMSD against an independent optimum."),
+        note=BASE_NOTE + "KernelOptimal is a hypothesis here (discharged by C06's theorems under the svd/eigh contracts); the text route is at 3-decimal precision (tolerance 2e-3).",
+        technique='Lean 4 proof of rigidity/frame/pairing over a data-flow model with the kernel as parameter + differential correspondence with an independent optimiser',
+        design_ref='DESIGN.md 5/C13, 12'),
 }
 
 checks = []
